@@ -331,7 +331,7 @@ func (x *scriptRun) deliverAll() {
 
 func runScript(cid string, in scriptIn) *recorder {
 	r := newRecorder(cid)
-	if in.Bufs <= 0 {
+	if in.Bufs == 0 { // unspecified (negative values are passed on to exercise Configuration.normalize)
 		in.Bufs = 5
 	}
 	r.add(map[string]any{"ev": "Begin", "begin": true, "mode": "script", "w": in.W, "b": in.B, "in": in})
